@@ -10,7 +10,7 @@ import ast
 import z3
 from .zs import *  # noqa
 from .values import *  # noqa
-from .symex import PyReturn, PyRaise, PyBreak, LoopEnd, vsubst
+from .symex import PyReturn, PyRaise, PyBreak, PyContinue, LoopEnd, vsubst
 from .contract import Ctx, make_symbolic
 
 UNROLL_MAX = 4
@@ -67,27 +67,42 @@ def assigned_names(body):
     return out
 
 
+def method_mutated_names(body):
+    out = set()
+    for st in body:
+        for n in ast.walk(st):
+            if isinstance(n, ast.Call) and isinstance(n.func, ast.Attribute) and isinstance(n.func.value, ast.Name) \
+                    and n.func.attr in ("add", "append", "discard", "update", "extend", "clear"):
+                out.add(n.func.value.id)
+    return out
+
+
 def exec_for(ex, s, env):
     if s.orelse:
         raise Unsupported("for/else at %d" % s.lineno)
     ordinal = ex.loop_ordinals[id(s)]
     it = ex.eval(s.iter, env)
-    spec = ex.con.loops.get(ordinal) if ex.qual == ex.con.qual else None
+    spec = ex.loop_specs.get(id(s))
     if isinstance(it, VTuple) and not it.items:
         return
     if isinstance(it, VConst) and isinstance(it.py, (range, tuple)) and len(it.py) <= UNROLL_MAX and spec is None:
         for x in it.py:
             ex.assign(s.target, VConst(x), env)
-            ex.exec_block(s.body, env)
+            try:
+                ex.exec_block(s.body, env)
+            except PyContinue:
+                continue
+            except PyBreak:
+                break
         return
     seq = ex.as_sequence(it, s) if not isinstance(it, VCursor) else cursor_sequence(ex, it, s)
     if spec is not None:
-        return exec_spec_loop(ex, s, env, seq, spec, ordinal)
+        return exec_spec_loop(ex, s, env, seq, spec, spec.ordinal)
     return summarise(ex, s, env, seq)
 
 
 def cursor_sequence(ex, cur, node):
-    if cur.kind == "dictvalues":
+    if cur.kind in ("dictvalues", "dictitems"):
         d = cur.d
         m = ex.st.heap["%s.%s" % (d.cls, d.field)][d.obj]
         n = fresh("dv.n", INT)
@@ -98,7 +113,10 @@ def cursor_sequence(ex, cur, node):
                      pats=lambda i: [en[i]]))
         ex.assume(FA([Str], lambda y: Implies(m[y] != 0, And(0 <= pos[y], pos[y] < n, en[pos[y]] == y)),
                      pats=lambda y: [pos[y]]))
-        lst = VList(n, lambda i: VRef(m[en[i]], d.valcls))
+        if cur.kind == "dictitems":
+            lst = VList(n, lambda i: VTuple([VZ(en[i], "str"), VRef(m[en[i]], d.valcls)]))
+        else:
+            lst = VList(n, lambda i: VRef(m[en[i]], d.valcls))
         lst.pos, lst.keys, lst.map = pos, en, m
         lst.from_mem = lambda y: m[y] != 0
         lst.registry = ("%s.%s" % (d.cls, d.field), d.obj)
@@ -144,6 +162,11 @@ def exec_spec_loop(ex, s, env, seq, spec, ordinal):
         ex.st.havoc(comp, "loop%d" % ordinal)
     for nm in assigned_names(s.body) | assigned_names([ast.Expr(s.target)]):
         env.pop(nm, None)
+    # a local container mutated in the body (x.add(..), x.append(..)) that the loop contract does not declare: its
+    # contents are unknown at the head of an arbitrary iteration and after the loop
+    for nm in method_mutated_names(s.body):
+        if nm in env and nm not in [l for l, _ in spec.locals] and isinstance(env[nm], (VAcc, VSet, VList, VBag, VUnknownColl)):
+            env[nm] = VUnknownColl("local %s mutated in loop %d" % (nm, ordinal))
     for nm, sp in spec.locals:
         v, facts = make_symbolic(sp, "loop%d.%s" % (ordinal, nm))
         for f in facts:
@@ -161,6 +184,8 @@ def exec_spec_loop(ex, s, env, seq, spec, ordinal):
         ex.assign(s.target, seq.at(k), env)
         try:
             ex.exec_block(s.body, env)
+        except PyContinue:
+            pass            # this iteration ends here; the invariant must hold for the next one all the same
         except PyBreak:
             return          # the loop ends in this (arbitrary) iteration: execution continues after it
         for nm, t, uses in inv_terms(k + 1):
@@ -241,8 +266,10 @@ def summarise(ex, s, env, seq):
         try:
             ex.assign(s.target, elem(i), env2)
             ex.exec_block(s.body, env2)
-        except (PyReturn, PyRaise):
-            raise Unsupported("return/raise inside a loop without a loop contract at %d" % s.lineno)
+        except PyContinue:
+            pass
+        except (PyReturn, PyRaise, PyBreak):
+            raise Unsupported("return/raise/break inside a loop without a loop contract at %d" % s.lineno)
         finally:
             p.decide = old_decide
             ex.recorder = old_rec
